@@ -4,19 +4,19 @@ import os
 from vlib import common as C, coapgen as G
 import props.C01 as B
 
-# clean (exit 0 + KNOWN-FINDING) at seeds 1..5 on 2026-09-26; the text leads with what is NOT proved.
+# clean (exit 0 + KNOWN-FINDING) at seeds 1..5 on 2026-09-26; all four refinement theorems proved since (branch ws-P04).
 MANIFEST = {
-    "text": 'PARTIAL. Proved in Lean: the frame theorem for abstract edits (only the named option/token changes, every other option keeps number, value and position, payload unchanged, order kept over any edit sequence); coap_update_token refines the abstract token replacement for every token length and direction; a PDU representing a well-formed message serialises and re-parses to it. NOT proved: that coap_insert_option, coap_update_option and coap_remove_option refine the abstract edits (the next-option header rewrite cases) and hence the round trip after sequences containing them — for these the claim rests on differential runs only (edit sequences up to 45 calls on parsed and built messages, thresholds 13/269 crossed in both directions, tight maximum sizes; I vs M vs S byte for byte, per-call digests).',
-    "note": 'Same trusted base, fixes and open finding as C01. Removal branches are exercised but not individually attributable from the harness output. Exit 0 depends on the unproved theorems being declared in NOT_PROVED rather than required.',
+    "text": 'Proved in Lean, for every abstract message the API can produce, every argument and every capacity (refusals included): coap_insert_option (append path, the middle path with all six next-option header rewrite cases, implicit Hop-Limit), coap_update_option (in-place replacement of the first match with any length change, else insertion), coap_remove_option (first match removed, following delta re-encoded in all six growth cases, or max_opt falling back) and coap_update_token (all three memmove directions) map the PDU representing an abstract (token, ordered option list, payload) message to the PDU representing the abstract edit of the specification; hence any sequence of such edits never leaves the buffer and ends on the PDU representing the same edits applied to the abstract model (edits_then_roundtrip), which serialises and decodes to exactly that model on udp/tcp/ws whenever it is well-formed — and it is well-formed whenever the start message was and every inserted/updated value respects the RFC length limit of its option (edits_then_roundtrip_wf: hypotheses on the inputs only); the PDU the parser leaves behind for a received message is such a representing PDU (parsed_start_is_refined); plus the frame theorems (an edit changes only the element it names, order kept). The open finding (a refused Proxy-Uri/Proxy-Scheme on a request leaves Hop-Limit=16) is not excluded from the theorems but characterised exactly as the only way a refused call changes the message. The model M is tied to the C code by differential runs (edit sequences up to 45 calls on parsed and built messages, thresholds 13/269 crossed in both directions, tight maximum sizes; I vs M vs S byte for byte, per-call digests).',
+    "note": 'Same trusted base, fixes and open finding as C01. The theorems are about the hand transcription M (Model/Build.lean); M = the compiled code is measured on the generated cases only. The RFC per-option length limits are a hypothesis on the values the caller passes (the API does not enforce them); on tcp the edited message must still fit the 32-bit extended length. M.ofParsed (what coap_pdu_parse leaves in the PDU) is tied to the code by the differential runs. Removal branches are exercised but not individually attributable from the harness output.',
     "design_ref": "design/C04.md, DESIGN.md §4 C04",
 }
 
 LEAN_MODULES = ["CoapVerif.Props.C04"]
 NAMESPACE = "Coap.C04"
-REQUIRED_THEOREMS = ["edit_frame", "edits_keep_order", "edit_sequence_keeps_order", "update_token_refines", "roundtrip_of_refined"]
-# NOT PROVED, deliberately not listed so that the gap is stated here rather than hidden behind a red build:
-#   insert_refines, update_refines, remove_refines, edits_then_roundtrip  (see Props/C04.lean, design/C04.md)
-NOT_PROVED = ["insert_refines", "update_refines", "remove_refines", "edits_then_roundtrip"]
+REQUIRED_THEOREMS = ["edit_frame", "edits_keep_order", "edit_sequence_keeps_order", "update_token_refines", "roundtrip_of_refined",
+                     "insert_refines", "insert_refines_middle", "update_refines", "update_refines_present", "remove_refines",
+                     "edits_then_roundtrip", "parsed_start_is_refined", "edits_keep_wellformed", "edits_then_roundtrip_wf"]
+NOT_PROVED = []
 RULE = ("edit sequences (coap_insert_option / coap_update_option / coap_remove_option / coap_update_token, mixed with "
         "add_option / add_data) of up to 40 calls applied to (a) messages parsed from generated wire bytes for "
         "udp/tcp/ws, with and without payload, and (b) freshly built messages; option numbers chosen so that the "
